@@ -49,7 +49,7 @@ class GraphSpec:
         return ts
 
     def run(s, prop, tier, seed, args, t0):
-        os.environ.setdefault('SEIR_TASK_TIMEOUT', '600' if tier == 'quick' else '3600')
+        os.environ.setdefault('SEIR_TASK_TIMEOUT', '900' if tier == 'quick' else '3600')
         b = H.build_drv('dev-like')
         tasks = s.tasks(tier)
         if args.only:
@@ -92,7 +92,7 @@ def finish(prop, tier, seed, t0, b, results, spec):
             seen_jobs.add(jid)
             what = None
             if prop == 'C07' and 'text' not in v['job'] and (v['kind'] in ('memerr', 'abort') or any(
-                    c.split(':')[0] in ('memory-error',) or ':free' in c.split('.')[0] for c in v['clauses'])):
+                    c.split(':')[0] in ('memory-error', 'dangling') or ':free' in c.split('.')[0] for c in v['clauses'])):
                 # a memory error: replay under AddressSanitizer, followed by calls that touch every slot again
                 if asan[0] is None:
                     asan[0] = H.build_asan_replay()
@@ -216,6 +216,25 @@ def slots_task(tier):
 from .kani import KaniSpec      # noqa: E402
 
 
+def _hex_text_tasks(tier):
+    """from_str(print(h)) == h: every byte symbolic up to 5 bytes; longer strings with a window of four
+    symbolic bytes at every even offset (hex::decode forks four ways per symbolic byte: 4^L paths)"""
+    ts = []
+    top = 8 if tier == 'quick' else 10
+    for L in range(0, top + 1):
+        for inl in (True, False):
+            if inl and L > 8:
+                continue
+            if L <= 5:
+                cases = [(L, inl, tuple(range(L)))]
+            else:
+                offs = sorted(set(list(range(0, L - 3, 2)) + [L - 4]))
+                cases = [(L, inl, tuple(range(o, o + 4))) for o in offs]
+            ts.append(Task('print-parse Hex, %d bytes %s, symbolic bytes %s' % (L, 'inline' if inl else 'heap', 'all' if L <= 5 else 'in windows of four'),
+                           'seir.ptext:ob_hex_print', cases=cases, _weight=4 ** min(L, 5)))
+    return ts
+
+
 class TextSpec(GraphSpec):
     """C17 on the build-std IR"""
     key_by_clause = True
@@ -270,7 +289,7 @@ class TextSpec(GraphSpec):
 
     def run(s, prop, tier, seed, args, t0):
         from . import ptext as PT
-        os.environ.setdefault('SEIR_TASK_TIMEOUT', '600' if tier == 'quick' else '3600')
+        os.environ.setdefault('SEIR_TASK_TIMEOUT', '900' if tier == 'quick' else '3600')
         b = H.build_drv('dev-like')
         tb = PT.build_bs()
         tasks = s.tasks(tier)
@@ -354,7 +373,7 @@ class SerdeSpec(TextSpec):
 
     def run(s, prop, tier, seed, args, t0):
         from . import ptext as PT
-        os.environ.setdefault('SEIR_TASK_TIMEOUT', '600' if tier == 'quick' else '3600')
+        os.environ.setdefault('SEIR_TASK_TIMEOUT', '900' if tier == 'quick' else '3600')
         b = H.build_drv('dev-like')
         tb = PT.build_bs(extra=True)
         tasks = s.tasks(tier)
@@ -415,15 +434,65 @@ class ExportSpec(SerdeSpec):
         return 1 if out else 0
 
 
+class Text20Spec(ExportSpec):
+    """C20 on the build-std IR"""
+    assumptions = ['three vertex slots; the edge structure (targets) is one of six shapes (chain, cycle with a shared target, two-cycle with an unreachable vertex, fan-in, two labels to one target, no edges) and is fixed per task, so the HashSet of inspect() hashes concrete ids; labels and data bytes are symbolic',
+                   'all labels of a run have one kind: Alpha(n < 1024), Greek(any character of one UTF-8 length other than the characters the three text forms use as delimiters), Str of three ASCII letters/digits',
+                   'edges never lead to an absent vertex in these structures (what inspect() shows behind a dangling edge is not specified)',
+                   'the text is tokenised by the checker; every byte outside the payload spans is proved fixed per path',
+                   'built with the nightly toolchain and -Zbuild-std; fixed hash keys']
+    bounds = 'capacity 3, N=2; 6 edge structures x 2 data-shape assignments x start vertices x rotating label kinds (thorough: all label kinds)'
+
+    def __init__(s):
+        GraphSpec.__init__(s, [], "inspect(v), Debug and v_print(v) executed on the IR; the text is tokenised under one model, the skeleton proved fixed, and compared with the abstract state: inspect lists every edge of every reachable vertex exactly once (multiset equality with symbolic labels) and terminates on cycles; Debug lists exactly the present vertices with their edges and data; v_print shows the data marker iff the vertex has data and exactly its labels")
+        s.which = 'C20'
+
+    @property
+    def judge(s):
+        from . import pexport
+        return pexport.judge_text20
+
+    def tasks(s, tier):
+        from . import pexport as PE
+        ts = []
+        shapesets = (['plain', 'inline3-read', 'heap9'], ['empty-datum', 'stale-under-empty', 'inline8'])
+        k = 0
+        for st_name in PE.STRUCTS:
+            for shp in shapesets:
+                labs = PE.LABS if tier == 'thorough' else (PE.LABS[k % len(PE.LABS)], PE.LABS[(k + 3) % len(PE.LABS)])
+                k += 1
+                for lab in labs:
+                    for start in range(3):
+                        ts.append(Task("inspect(%d) %s shapes=%s labels=%s" % (start, st_name, ','.join(shp), lab), 'seir.pexport:ob_text20', N=2, cap=3, struct=st_name, shapes=shp,
+                                       lab=lab, which='inspect', start=start, _weight=15 if lab == 'alpha' else 4))
+                        ts.append(Task("v_print(%d) %s shapes=%s labels=%s" % (start, st_name, ','.join(shp), lab), 'seir.pexport:ob_text20', N=2, cap=3, struct=st_name, shapes=shp,
+                                       lab=lab, which='v_print', start=start, _weight=15 if lab == 'alpha' else 2))
+                    ts.append(Task("Debug %s shapes=%s labels=%s" % (st_name, ','.join(shp), lab), 'seir.pexport:ob_text20', N=2, cap=3, struct=st_name, shapes=shp,
+                                   lab=lab, which='debug', _weight=20 if lab == 'alpha' else 5))
+        # an absent slot among the three (Debug must skip it; it is unreachable in 'chain' from 0 only if it is the last)
+        for lab in (('greek2', 'alpha') if tier == 'quick' else PE.LABS):
+            ts.append(Task("Debug no-edges shapes=plain,absent-stale,inline8 labels=%s" % lab, 'seir.pexport:ob_text20', N=2, cap=3, struct='no-edges',
+                           shapes=['plain', 'absent-stale', 'inline8'], lab=lab, which='debug'))
+        return ts
+
+    def replay(s, path):
+        from . import pexport as PE
+        v = json.load(open(path))
+        b = H.build_drv('dev-like')
+        lines, crashed, stderr = H.native_replay(b['replay'], v['job'])
+        out, info = PE.judge_text20(v['job'], lines, crashed, stderr)
+        print(json.dumps({'reproduces': bool(out), 'what': out}, indent=1))
+        return 1 if out else 0
+
+
 PROPS = {
+    'C20': Text20Spec(),
     'C18': ExportSpec(),
     'C08': SerdeSpec('C08'),
     'C09': SerdeSpec('C09'),
     'C17': TextSpec(),
     'C15': KaniSpec('c15_', "Hex observers, indices and the six range kinds agree with the byte slice (ok / panic harness pairs); equality across representations; i64/f64 conversions (engine K); from_str(print(h)) == h (engine S)",
-                    text_tasks=lambda tier: [Task('print-parse Hex, %d bytes %s' % (L, 'inline' if inl else 'heap'), 'seir.ptext:ob_hex_print',
-                                                  cases=[(L, inl, tuple(range(L)))], _weight=2 ** L)
-                                             for L in range(0, (9 if tier == 'quick' else 11)) for inl in (True, False) if not (inl and L > 8)]),
+                    text_tasks=lambda tier: _hex_text_tasks(tier)),
     'C16': KaniSpec('c16_', "concat is byte-string concatenation for all four representation combinations, split by the region of the recorded finding", known_harness='c16_concat_inside_known_region'),
     'C01': GraphSpec(['add', 'put', 'data', 'bind', 'next_id', 'readers'],
                      "GC safety as a step relation from every Inv state: only data(v) removes, only members of v's group "
